@@ -35,6 +35,7 @@ import (
 	"github.com/restic/restic/internal/verifshim/gatebe"
 	"github.com/restic/restic/internal/verifshim/oracle"
 	"github.com/restic/restic/internal/verifshim/vh"
+	"github.com/restic/restic/internal/verifshim/xplore"
 )
 
 type verifC26Snap struct {
@@ -279,4 +280,11 @@ func TestVerif_C26(t *testing.T) {
 		crashx.Explore(r, t, sc, bound, seen)
 	}
 	r.Extra("deviation_bound", bound)
+}
+
+// TestVerifRace_C26 runs every scenario body free (gates answer at once, no oracle) under the race detector.
+func TestVerifRace_C26(t *testing.T) {
+	xplore.Free = 2
+	defer func() { xplore.Free = 0 }()
+	TestVerif_C26(t)
 }
